@@ -17,9 +17,9 @@ CHECKS = {
     },
     "C17": {
         "text": "Proof on the real example-backend code (Kani): TimedMessage ordering contract for any queued messages - never Equal for distinct queued messages, antisymmetric, transitive, refining (timestamp, insertion order) - full domain over timestamps; "
-                "bounded: FIFO delivery exactly once with payload/channel unchanged for 3 queued messages on the real BinaryHeap.",
+                "pop hands out a message exactly when it is due, exactly once; bounded: FIFO for 2 queued messages on the real BinaryHeap.",
         "design_ref": "DESIGN.md §4 U14, §5 C17",
-        "note": "Receive-queue ordering only (config = None path). Beyond 3 queued messages FIFO rests on the proved ordering contract plus BinaryHeap's documented contract. Not covered: TCP framing and socket behaviour (I/O).",
+        "note": "Receive-queue ordering only (config = None path). Beyond 2 queued messages FIFO rests on the proved ordering contract plus BinaryHeap's documented contract. Not covered: TCP framing and socket behaviour (I/O).",
         "technique": "contract-based deductive verification: Kani/CBMC contract harnesses (full-domain symbolic timestamps) on the real crate; one bounded stand-in on the real BinaryHeap, labelled",
     },
     "C03": {
